@@ -305,6 +305,11 @@ func Report(profs map[string]*profile.Profile, srcs []string, bools map[string]b
 	return out, s.UI, res
 }
 
+// ForceDefaults makes Report/StartWeb always name a granularity and a sort order, so that in a
+// process that runs many sessions nothing depends on the previous one. A fresh child process
+// sets it to false to exercise pprof's own defaults.
+var ForceDefaults = true
+
 // Web starts the web UI of one profile in-process and returns its handlers.
 type Web struct {
 	Handlers map[string]http.Handler
@@ -327,10 +332,10 @@ func StartWeb(fetch plugin.Fetcher, srcs []string, bools map[string]bool, strs m
 			gran = true
 		}
 	}
-	if !gran {
+	if !gran && ForceDefaults {
 		b["functions"] = true
 	}
-	if !b["cum"] && !b["flat"] {
+	if !b["cum"] && !b["flat"] && ForceDefaults {
 		b["flat"] = true
 	}
 	st := map[string]string{"http": "localhost:0", "symbolize": "none"}
@@ -370,7 +375,7 @@ func (w *Web) Get(url string) (code int, body string, panicked string) {
 	}
 	h := w.Handlers[path]
 	if h == nil {
-		return 404, "", ""
+		return 404, "404 page not found (no handler registered for this path)", ""
 	}
 	req, err := http.NewRequest("GET", "http://localhost"+url, nil)
 	if err != nil {
